@@ -19,7 +19,8 @@ EXPLANATION = (
     "begin/end are balanced on every non-error path; the field-id delta state (last_field_id) is updated "
     "on every path of both header codecs; the four header codecs (field and list header, encoder and "
     "decoder) are executed abstractly over their whole input space (all 256 header bytes, id deltas "
-    "-20..40, counts -4..64) and must produce/accept exactly the compact-protocol short and long forms; "
+    "-20..40, counts -4..64) and must produce/accept exactly the compact-protocol short and long forms; the "
+    "map header codecs likewise (an empty map is one byte and its reader consumes no types byte); "
     "every field header is read/written inside a field-id frame (helpers are followed to their callers); "
     "field helpers and nested-struct helpers are expanded into the struct-level writer/parser before "
     "comparison; integers go through zigzag on both sides. The LogicalType union is decided by abstract "
@@ -857,6 +858,51 @@ def _forms(ctx):
         ctx.ob("R5.forms", "list-long-form|%s:thrift_read_list_begin" % TD, P.where(g.body),
                "list header decoding for all 256 header bytes: type = low nibble, count = high nibble, or a varint iff "
                "the nibble is 0xF", bad is None, bad or "")
+    # ---- map header: size varint first; the (key type << 4 | value type) byte exists only when the size is not 0
+    f = P.fn("thrift_write_map_begin", TE)
+    bad = None
+    try:
+        for count in (0, 1, 2, 15, 16, 200):
+            for kt, vt in ((8, 5), (5, 12), (3, 3)):
+                _, ev, heap = run(f, [Ptr("enc", 0, 1), kt, vt, count], {("enc", eo["status"]): 0}, {
+                    "thrift_write_byte": lambda ev, a: ev.append(("byte", byte_of(a[1]))) or 0,
+                    "thrift_write_varint": lambda ev, a: ev.append(("varint", a[1])) or 0})
+                want = [[("byte", 0)], [("varint", 0)]] if count == 0 else [[("varint", count), ("byte", (kt << 4) | vt)]]
+                if ev not in want and bad is None:
+                    bad = "count %d, types %d/%d: writes %s, the compact protocol writes %s" % (count, kt, vt, ev, want[0])
+    except (Budget, Stop) as ex:
+        ctx.inconclusive("R5.forms", "map-form|%s:thrift_write_map_begin" % TE, P.where(f.body), "abstract execution", str(ex))
+        bad = "?"
+    if bad != "?":
+        ctx.ob("R5.forms", "map-form|%s:thrift_write_map_begin" % TE, P.where(f.body),
+               "map header: the single byte 0 for an empty map, else a varint size followed by (key type<<4|value type)", bad is None, bad or "")
+    g = P.fn("thrift_read_map_begin", TD)
+    bad = None
+    try:
+        for count in (0, 1, 7, 300, -1):
+            for tb in (0x85, 0x5C, 0x33):
+                ret, ev, heap = run(g, [Ptr("dec", 0, 1), Ptr("kt", 0, 4), Ptr("vt", 0, 4), Ptr("cnt", 0, 4)], {("dec", do["status"]): 0}, {
+                    "read_byte_raw": lambda ev, a, tb=tb: ev.append("types-byte") or tb,
+                    "thrift_read_byte": lambda ev, a, tb=tb: ev.append("types-byte") or tb,
+                    "thrift_read_varint": lambda ev, a, count=count: ev.append("varint") or (count & 0xFFFFFFFFFFFFFFFF),
+                    "carquet_buffer_reader_remaining": lambda ev, a: 1 << 20,
+                    "set_error": lambda ev, a: ev.append("error") or 0})
+                got = (heap.get(("cnt", 0)), heap.get(("kt", 0)), heap.get(("vt", 0)))
+                if count == 0:
+                    ok = ev == ["varint"] and got[0] == 0
+                elif count < 0:
+                    ok = "error" in ev and "types-byte" not in ev and got[0] == 0
+                else:
+                    ok = ev == ["varint", "types-byte"] and got == (count, tb >> 4, tb & 15)
+                if not ok and bad is None:
+                    bad = "size %d, types byte 0x%02X: reads %s and yields count/key/value %s" % (count, tb, ev, got)
+    except (Budget, Stop) as ex:
+        ctx.inconclusive("R5.forms", "map-form|%s:thrift_read_map_begin" % TD, P.where(g.body), "abstract execution", str(ex))
+        bad = "?"
+    if bad != "?":
+        ctx.ob("R5.forms", "map-form|%s:thrift_read_map_begin" % TD, P.where(g.body),
+               "map header decoding: an empty map is the size varint alone (no types byte is consumed); otherwise one types byte follows, "
+               "key = high nibble, value = low nibble; a negative size is an error that consumes nothing more", bad is None, bad or "")
     return decided
 
 
